@@ -4,7 +4,7 @@
 
    Records (harness/src/bin/c18.rs).  Every vector starts with a tag word (so that it is never empty).
      18001 READ       ps = [dbg; rk; tcode; has_pre; model; info...]   vs = [13::F; 13::S0; 13::S]
-                      out = [[oc; woc_before; woc_after; acc]; 13::dump_before; 13::dump_after; 15::raw_after]
+                      out = [[oc; woc_before; woc_after; acc]; 13::dump_before (empty when has_pre = 0); 13::dump_after; 15::raw_after]
      18002 WRITE      ps = [dbg; tcode; hdr...]                         vs = [15::data]           (HAL types)
                       out = [[woc]; 13::bytes]
      18003 ROUNDTRIP  ps = [dbg; rk; tcode; has_prex; model; has_prer]  vs = [13::Fx; 13::SX; 13::Fr; 13::S0]
@@ -220,6 +220,17 @@ Definition dump_gobj (dbg : bool) (g : gobj) : outcome * bytes :=
 Definition raw_gobj (g : gobj) : list Z :=
   match g with GF f => fh f ++ fd f | _ => [] end.
 
+(* aux of the shape vector (VecZnx, GLWE): active limb count + 1, set after allocation (max_size and the buffer stay) *)
+Definition apply_aux (tcode aux : Z) (g : gobj) : gobj :=
+  if ((tcode =? 1) || (tcode =? 10)) && (0 <? aux) then
+    match g with
+    | GF f => GF {| fk := fk f; fh := set_nth 2 (aux - 1) (fh f); fd := fd f |}
+    | GW w => GW {| w_fields := w_fields w;
+                    w_body := {| fk := fk (w_body w); fh := set_nth 2 (aux - 1) (fh (w_body w)); fd := fd (w_body w) |} |}
+    | _ => g
+    end
+  else g.
+
 (* ---------- run ---------- *)
 Definition pre_read (fixedm dbg partial has : bool) (g : gobj) (s0 : bytes) : option gobj :=
   if has then let '(o, g') := read_gobj fixedm dbg partial g s0 in if is_panic o then None else Some g'
@@ -232,11 +243,12 @@ Definition run_read (ps : list Z) (vs : list (list Z)) : option (list (list Z)) 
   | Some sc =>
     match parse_fresh sc (v vs 0) with
     | None => None
-    | Some g0 =>
+    | Some g00 =>
+      let g0 := apply_aux (p ps 2) (p ps 13) g00 in
       match pre_read fixedm dbg partial (b2 (p ps 3)) g0 (v vs 1) with
       | None => None
       | Some g1 =>
-        let '(wb, db) := dump_gobj dbg g1 in
+        let '(wb, db) := if b2 (p ps 3) then dump_gobj dbg g1 else (Ok, []) in
         let '(oc, g2) := read_gobj fixedm dbg partial g1 (v vs 2) in
         if is_panic oc then None
         else let '(wa, da) := dump_gobj dbg g2 in
@@ -261,7 +273,8 @@ Definition run_roundtrip (ps : list Z) (vs : list (list Z)) : option (list (list
   | None => None
   | Some sc =>
     match parse_fresh sc (v vs 0), parse_fresh sc (v vs 2) with
-    | Some x0, Some r0 =>
+    | Some x00, Some r00 =>
+      let x0 := apply_aux (p ps 2) (p ps 14) x00 in let r0 := apply_aux (p ps 2) (p ps 24) r00 in
       match pre_read fixedm dbg partial (b2 (p ps 3)) x0 (v vs 1), pre_read fixedm dbg partial (b2 (p ps 5)) r0 (v vs 3) with
       | Some x, Some r =>
         let '(wx, sx) := dump_gobj dbg x in
@@ -390,11 +403,12 @@ Definition oracle_read (sel : Z) (ps : list Z) (vs outs : list (list Z)) : Z :=
   | Some sc =>
     match parse_fresh sc (v vs 0) with
     | None => 2
-    | Some g0 =>
+    | Some g00 =>
+      let g0 := apply_aux (p ps 2) (p ps 13) g00 in
       let caps := caps_of g0 in
       let st := nth 0 outs [] in
       let oc := nth 0 st 9 in let wb := nth 1 st 9 in let wa := nth 2 st 9 in
-      match (if wb =? 0 then parse_gobj sc (v outs 1) else None) with
+      match (if b2 (p ps 3) then (if wb =? 0 then parse_gobj sc (v outs 1) else None) else Some g0) with
       | None => 2                                            (* receiver not in a valid state before the call *)
       | Some gb =>
         if negb (inv_g caps gb && valid_g gb) then 2
@@ -415,16 +429,17 @@ Definition oracle_roundtrip (sel : Z) (ps : list Z) (vs outs : list (list Z)) : 
   | None => 2
   | Some sc =>
     match parse_fresh sc (v vs 0), parse_fresh sc (v vs 2) with
-    | Some x0, Some r0 =>
+    | Some x00, Some r00 =>
+      let x0 := apply_aux (p ps 2) (p ps 14) x00 in let r0 := apply_aux (p ps 2) (p ps 24) r00 in
       let st := nth 0 outs [] in
       let wx := nth 0 st 9 in let oc := nth 1 st 9 in let wa := nth 2 st 9 in
-      match (if wx =? 0 then parse_gobj sc (v outs 0) else None) with
+      match (if wx =? 0 then parse_gobj sc (v outs 1) else None) with
       | None => 2                                            (* the object written was not well formed *)
       | Some x =>
         if negb (inv_g (caps_of x0) x && valid_g x) then 2
         else
           let caps := caps_of r0 in
-          let ga := if wa =? 0 then parse_gobj sc (v outs 1) else None in
+          let ga := if wa =? 0 then parse_gobj sc (v outs 2) else None in
           let fits := eq_list (shape_g x) (shape_g r0) && all2 (fun f c => blen (fd f) <=? c) (leaves x) caps in
           let okoc := (oc =? 0) || (oc =? 1) in
           let a := okoc && match ga with Some g => act_g caps g | None => false end in
